@@ -152,7 +152,7 @@ func init() {
 		}
 		emitStrList(x, it, f, cl.Elts, what)
 	}
-	kinds["switchcases"] = func(x *Ctx, it Item) {
+	kinds["switchcases_str"] = func(x *Ctx, it Item) {
 		f := x.File(it.File)
 		fd := findFunc(f, it.Recv, it.Func)
 		what := it.File + ":" + it.Recv + "." + it.Func + " switch"
